@@ -8,9 +8,28 @@ MODULE = "GoNfsd.Props.C08"
 
 def run(ctx):
     ok_go, ok_drv = seqlib.build_and_prove(ctx, MODULE)
+    if any(b.kind == "proof" for b in ctx.breaks):
+        import os
+        import re
+        try:
+            txt = open(os.path.join(vlib.LEAN, "GoNfsd", "Gen", "Skeleton.lean")).read()
+            i = txt.find("def relockUses")
+            for fn, calls, reval in re.findall(r'\("([^"]+)", (\d+), (\d+)\)', txt[i:] if i >= 0 else ""):
+                bad = int(reval) < 2 if fn == "nfs.validateRename" else int(calls) > int(reval)
+                if bad:
+                    ctx.add_violation("handle-not-revalidated:" + fn,
+                                      "%s locks inodes by number %s time(s) after the locks of the resolved handle were given back and compares generations %s time(s): "
+                                      "when the object was removed and its number reused in between, the dead handle resolves to the new owner of the number" % (fn, calls, reval),
+                                      {"input": {"function": fn, "lockInodes_calls": int(calls), "revalidations_after": int(reval)},
+                                       "how": "table Gen/Skeleton.relockUses regenerated from nfs/*.go, checked by Model/Skeleton.relockCheck (theorem "
+                                              "handles_are_revalidated_after_locking_by_number); history: a request holds the directory, aborts to lock in order; meanwhile the child is "
+                                              "renamed away, the directory removed, its number reused by MKDIR, the child renamed back under the same name"})
+        except OSError:
+            pass
     if ok_go:
         args = ["-seqs", "40", "-ops", "500"] if ctx.tier == "thorough" else ["-seqs", "8", "-ops", "400"]
-        lines, tr = seqlib.run_seq(ctx, args)
+        lines, tr = seqlib.run_seq(ctx, args + ["-locks"])
+        seqlib.two_phase(ctx, lines, ok_drv, "C08", "A handle resolved under the first tenure of the lock is used after the object may have been removed and its number reused")
         if lines is not None:
             # replies that CARRY handles are compared in full (READDIRPLUS entries, LOOKUP, the creating procedures): a handle
             # that denotes another object, or an entry given a handle it must not have, is a violation whatever the status
